@@ -996,6 +996,22 @@ impl<'a> Builder<'a> {
                 let src = self.build(c);
                 Arc::new(callbag::share(src))
             }
+            Topo::Diamond(f, q, c) => {
+                let (f, q) = (*f, *q);
+                let shared: Src<i64> = Arc::new(callbag::share(self.build(c)));
+                let w2 = Arc::clone(&w);
+                let a: Src<i64> = Arc::new(callbag::map(move |x: i64| {
+                    let r = map_fn(f, x);
+                    w.call(CallKind::MapF, f as u16, vec![Val::I(x)], Some(Val::I(r)));
+                    r
+                })(Arc::clone(&shared)));
+                let b: Src<i64> = Arc::new(callbag::filter(move |x: &i64| {
+                    let r = pred_fn(q, *x);
+                    w2.call(CallKind::FilterP, q as u16, vec![Val::I(*x)], Some(Val::I(r as i64)));
+                    r
+                })(shared));
+                Arc::new(callbag::merge!(a, b))
+            }
         }
     }
 }
